@@ -797,3 +797,14 @@ M("c11-checkpoints-window-too-narrow", "C11", "cola/libavoid/geomtypes.cpp",
   "    else if (indexModifier < 0)\n    {\n        checkpointUpperValue--;", "    else if (indexModifier < 0)\n    {\n        checkpointUpperValue -= 2;", mention=["CHECKPOINTS-ON-SEGMENT"])
 M("c10-pair-of-one-connector", "C10", "cola/libavoid/orthogonal.cpp",
   "                            (currSegment->connRef != prevSeg->connRef) &&\n", "", mention=["PAIR-IDS-DISTINCT"])
+
+# ---------------------------------------------------------------- C04 / C06 / C03 round d
+M("c06-selective-test-compares-lengths", "C06", "cola/libavoid/router.cpp",
+  "            conndist += (conn->m_route.size() - 2) *\n                    (routingParameter(segmentPenalty) +\n                     routingParameter(anglePenalty));",
+  "            conndist += 0;", mention=["REROUTE-COST-BOUND"])
+M("c03-clear-fixed-route-keeps-ends-blind", "C03", "cola/libavoid/connector.cpp",
+  "        std::pair<ConnEnd, ConnEnd> ends = endpointConnEnds();\n        setEndpoints(ends.first, ends.second);\n", "", mention=["FIXED-ROUTE-CLEARED"])
+M("c04-sweep-only-earlier-endpoints", "C04", "cola/libavoid/visibility.cpp",
+  "                else if (inf->id.objID == centerID.objID)\n", "                else if ((inf->id.objID == centerID.objID) && (inf->id.vn < centerID.vn))\n", mention=["SWEEP-CANDIDATES"])
+M("c04-neutral-angle-args-swapped-sign", "C04", "cola/libavoid/makepath.cpp",
+  "    return fabs(atan2(CrossLength(v1, v2), Dot(v1, v2)));", "    return fabs(atan2(-CrossLength(v1, v2), Dot(v1, v2)));", expect="silent")
